@@ -541,7 +541,19 @@ func (c *clientStream) Recv() (*protoReplicaV1.ReplicaResponse, error) {
 		t.w.putMu.Lock()
 		entered := t.w.putParkedCh
 		t.w.putMu.Unlock()
+	inflight:
+		var grace <-chan time.Time
+		if t.w.hasParkedPut() {
+			select {
+			case <-entered: // the parked append is this request's own
+			default:
+				grace = time.After(inflightGrace) // an older one: this request's handler may be waiting behind it
+			}
+		}
 		select {
+		case <-grace:
+			t.w.releaseParkedPut()
+			goto inflight
 		case <-entered:
 			// the client sees the connection die now; the follower's handler is still inside ReplicaLog and will
 			// finish its append later (a gRPC server does not cancel a handler synchronously with the client's error)
